@@ -2,11 +2,11 @@
     PROVED for all inputs: greedy (LPT) largest sum <= (4/3 - 1/(3k)) OPT (Graham's bound, full statement: lpt_ratio_43);
     the gap largest - smallest <= largest item for greedy, Karmarkar-Karp and round-robin; round-robin's sums are non-increasing in
     bin index and its cardinalities differ by at most one; weaker constants for every k: KK largest <= (3/2 - 1/(2k)) OPT, multifit largest <= 2 OPT,
-    greedy smallest >= k/(2k-1) OPTmin; the sharp KK and greedy-smallest bounds for 1 and 2 bins.
+    greedy smallest >= 3/4 OPTmin (the limit of the sharp constant) and >= k/(2k-1) OPTmin; the sharp KK and greedy-smallest bounds for 1 and 2 bins.
     NOT proved (research-level case analyses, DESIGN section 8; tested against the verified oracle opt_value and planted optima):
     KK 4/3 - 1/(3k); greedy smallest >= (3k-1)/(4k-2) OPTmin; multifit 1.22 + 2^-iterations.
     Statements only; proofs in Proofs/{GreedyProofs,KKProofs,CKKOptimal,RatioProofs,MultifitProofs,OracleSpec}.v. *)
-From Prtpy Require Import Base.Prelude Model.Binner Model.Objectives Model.Greedy Model.KK Model.Multifit Spec.Partition Oracle.Reach Proofs.GreedyProofs Proofs.KKProofs Proofs.CKKOptimal Proofs.RatioProofs Proofs.MultifitProofs Proofs.OracleSpec Proofs.KKRatioProofs Proofs.LPTMinProofs.
+From Prtpy Require Import Base.Prelude Model.Binner Model.Objectives Model.Greedy Model.KK Model.Multifit Spec.Partition Oracle.Reach Proofs.GreedyProofs Proofs.KKProofs Proofs.CKKOptimal Proofs.RatioProofs Proofs.MultifitProofs Proofs.OracleSpec Proofs.KKRatioProofs Proofs.LPTMinProofs Proofs.LPTMinFullProofs.
 
 (** greedy: 3k * largest <= (4k - 1) * OPT, i.e. largest <= (4/3 - 1/(3k)) OPT *)
 Theorem C08_lpt_ratio_43 :
@@ -137,6 +137,16 @@ Theorem C08_lpt_min_ratio_k12_partial :
   (4 * Z.of_nat k - 2) * zmin (sums (greedy valueof keep k items)).
 Proof. exact @lpt_min_ratio_k12_partial. Qed.
 Print Assumptions C08_lpt_min_ratio_k12_partial.
+
+(** PARTIAL (the limit constant, every k): greedy smallest >= 3/4 OPTmin (Deuermeyer, Friesen and Langston); (3k-1)/(4k-2) tends to 3/4 from above *)
+Theorem C08_lpt_min_ratio_34_partial :
+  forall (A : Type) (valueof : A -> Z) (keep : bool) (k : nat) (items : list A) (v : Z),
+  (1 <= k)%nat ->
+  Forall (fun x : A => 0 <= valueof x) items ->
+  Opt MaxSmallest k (map valueof items) v ->
+  3 * - v <= 4 * zmin (sums (greedy valueof keep k items)).
+Proof. exact @lpt_min_ratio_34. Qed.
+Print Assumptions C08_lpt_min_ratio_34_partial.
 
 (** the yardstick for the unproved constants: opt_value is the true optimum *)
 Theorem C08_opt_value_oracle :
